@@ -195,7 +195,6 @@ def make_cases(ctx):
             c['pre_dump'] = True
             if eff_xf(c) != 'CAMEL':
                 c['cfg']['xf'] = 'CAMEL'
-        c['wild'] = None
         c['canonical_names'] = all_canonical(c['root'])
     return cases
 
